@@ -742,6 +742,12 @@ def check_identity_and_refs(m: Model, mlf: MLF, lf: R.LogicalFile) -> list[tuple
             where = 'across-named-sets' if len(in_sets) == n else 'within-set'
             errs.append((f'identity_duplicate:{where}', f"{n} objects share identity {key} (sets named {in_sets})"))
     origin_refs = {ob.name.origin for ob in lf.objects('ORIGIN')}
+    # the FILE-HEADER object (whose origin the user cannot choose) belongs to the defining origin
+    fh = [ob for s in lf.sets if s.type == 'FILE-HEADER' for ob in s.objects]
+    mo = mlf.objs_of('origin')
+    if fh and mo and fh[0].name.origin != mo[0].origin:
+        errs.append(('header_origin', f"FILE-HEADER object has origin {fh[0].name.origin}, the defining origin's reference is "
+                                      f"{mo[0].origin}"))
     by_name: dict[R.ObName, list[str]] = {}
     for (t, n) in ids:
         by_name.setdefault(n, []).append(t)
